@@ -27,7 +27,14 @@ func vtree(shape int) Files {
 	f := Files{}
 	vnamesOf = nil
 	// contents: symbolic bytes, lengths 1, 0, 2 for the first, second, third file
-	data := func() []byte { return []byte(vsym_nstring([]int{1, 0, 2}[len(vnamesOf)%3])) }
+	// (the empty one is either an empty or a nil slice)
+	data := func() []byte {
+		n := []int{1, 0, 2}[len(vnamesOf)%3]
+		if n == 0 && vsym_choice(2) == 1 {
+			return nil
+		}
+		return []byte(vsym_nstring(n))
+	}
 	switch shape {
 	case 0:
 		vput(f, vletter(), data())
